@@ -6,7 +6,7 @@ import z3
 from . import extract, theory as th
 from .values import (SV, SObj, SClass, SFunc, SNamespace, SPyExc, T, INT, BOOL, NUM, STR, Undecided,
                      parse_type, zsort, fresh, lift, coerce)
-from .engine import (Interp, Path, PathEnd, PyRaise, _Return, _b, _parse, _strip_doc, Scope, Contract,
+from .engine import (Interp, Path, PathEnd, PyRaise, _Return, _Break, _Continue, _b, _parse, _strip_doc, Scope, Contract,
                      LoopSpec, explore, exc_is_subclass, EXC_PARENTS)
 from .libspec import Lib, SArr
 
@@ -34,6 +34,7 @@ class World:
         self.isinstance_hook = None
         self.construct_hooks = {}
         self.type_factories = {}
+        self.ref_methods = {}
 
     # ---------------- registration
     def add(self, c):
@@ -293,6 +294,10 @@ def verify_function(world, c, setup=None, body_of=None, hooks=None, extra_check=
             outcome = ('return', r.value)
         except PyRaise as e:
             outcome = ('raise', e.exc)
+        except _Break:
+            outcome = ('break', None)
+        except _Continue:
+            outcome = ('continue', None)
         finally:
             dropped.update(I.dropped)
         path.outcome = outcome
@@ -314,6 +319,10 @@ def verify_function(world, c, setup=None, body_of=None, hooks=None, extra_check=
             if sp:
                 for k, e in enumerate(sp):
                     path.oblige(f'{c.name}::signals-post::{exc.cls}::{k}', I.spec(e, scope), kind='signals-post', meta={'expr': e})
+            if extra_check is not None:
+                extra_check(I, scope, outcome)
+            return
+        if outcome[0] in ('break', 'continue'):
             if extra_check is not None:
                 extra_check(I, scope, outcome)
             return
